@@ -507,10 +507,16 @@ class Parser:
         name = str(self._current_token)
         self.next_token()
         if self._detect_routine_start():
-            if not self._context.get_routine(name).undefined:
+            if self._already_defined(name):
                 return self.token_error('Already defined: "{}"')
             return self._routine_definition(name)
+        if self._already_defined(name):
+            return self.trigger_error('Already defined: "{}"'.format(name))
         return self._macro_definition(name)
+
+    def _already_defined(self, name) -> bool:
+        return (self._context.has_routine(name)
+                or not self._context.get_macro(name).undefined)
 
     def _detect_routine_start(self) -> bool:
         """
